@@ -339,43 +339,68 @@ pub mod sync {
     }
 
     /// A `LazyLock` whose value a simulator can discard between runs (the
-    /// in-process stand-in for "the process was restarted"). Initialisation
-    /// is serialised like std's.
+    /// in-process stand-in for "the process was restarted"). Same semantics as
+    /// std's: initialisation is serialised, and an initialiser that panics
+    /// poisons the cell (every later dereference panics). The lock that
+    /// serialises initialisation is a reporting [`Mutex`], so a simulator sees
+    /// threads waiting for a slow initialiser.
     pub struct LazyLock<T, F = fn() -> T> {
         cell: UnsafeCell<Option<T>>,
         init: F,
-        once: std::sync::Mutex<()>,
+        once: Mutex<()>,
+        ready: std::sync::atomic::AtomicBool,
+        poisoned: std::sync::atomic::AtomicBool,
     }
     // Same bounds as std's LazyLock (the initialiser is only called under `once`).
     unsafe impl<T: Sync + Send, F: Send> Sync for LazyLock<T, F> {}
     impl<T, F: Fn() -> T> LazyLock<T, F> {
         pub const fn new(init: F) -> Self {
-            Self { cell: UnsafeCell::new(None), init, once: std::sync::Mutex::new(()) }
-        }
-        pub fn force(this: &Self) -> &T {
-            let g = this.once.lock().unwrap_or_else(|e| e.into_inner());
-            // SAFETY: the slot is only written under `once`, and only while it
-            // is `None` (or by `reset`, whose contract excludes live borrows).
-            let initialised = unsafe { (*this.cell.get()).is_some() };
-            drop(g);
-            env().lazy_force(this as *const _ as *const u8 as usize, initialised);
-            let _g = this.once.lock().unwrap_or_else(|e| e.into_inner());
-            unsafe {
-                if (*this.cell.get()).is_none() {
-                    *this.cell.get() = Some((this.init)());
-                }
-                match (*this.cell.get()).as_ref() {
-                    Some(v) => v,
-                    None => unreachable!(),
-                }
+            Self {
+                cell: UnsafeCell::new(None),
+                init,
+                once: Mutex::new(()),
+                ready: std::sync::atomic::AtomicBool::new(false),
+                poisoned: std::sync::atomic::AtomicBool::new(false),
             }
         }
-        /// Discards the value; the next dereference initialises again.
+        pub fn force(this: &Self) -> &T {
+            use std::sync::atomic::Ordering::SeqCst;
+            let initialised = this.ready.load(SeqCst);
+            env().lazy_force(this as *const _ as *const u8 as usize, initialised);
+            if !this.ready.load(SeqCst) {
+                let _g = this.once.lock().unwrap_or_else(|e| e.into_inner());
+                if this.poisoned.load(SeqCst) {
+                    panic!("LazyLock instance has previously been poisoned");
+                }
+                if !this.ready.load(SeqCst) {
+                    // poisoned unless the initialiser returns
+                    this.poisoned.store(true, SeqCst);
+                    let value = (this.init)();
+                    // SAFETY: written once, under `once`, before `ready` is set;
+                    // nobody reads the slot before `ready` (or `reset`, whose
+                    // contract excludes live borrows).
+                    unsafe { *this.cell.get() = Some(value) };
+                    this.poisoned.store(false, SeqCst);
+                    this.ready.store(true, SeqCst);
+                }
+            }
+            // SAFETY: `ready` was observed, the slot is not written any more.
+            match unsafe { (*this.cell.get()).as_ref() } {
+                Some(v) => v,
+                None => unreachable!(),
+            }
+        }
+        /// Discards the value (and the poison flag); the next dereference
+        /// initialises again.
         ///
         /// # Safety
-        /// No reference obtained from this `LazyLock` may be alive.
+        /// No reference obtained from this `LazyLock` may be alive and no
+        /// other thread may be using it.
         pub unsafe fn reset(&self) {
-            let _g = self.once.lock().unwrap_or_else(|e| e.into_inner());
+            use std::sync::atomic::Ordering::SeqCst;
+            self.once.clear_poison();
+            self.ready.store(false, SeqCst);
+            self.poisoned.store(false, SeqCst);
             *self.cell.get() = None;
         }
     }
